@@ -19,14 +19,19 @@ Source anchors (all in /repo):
   no row at all ⇒ hot. A "<x>.parquet.part" staging object never matches the glob.
 
 Faults: every mutation ATTEMPT consumes the next `Outcome` of an oracle list (exhausted ⇒ `ok`):
-`fail` = the call returns an error and has no effect, `crash` = the process stops right before the
+`fail` = the call returns an error and has no effect (`srcfail`: the error comes from the source
+read of the copy), `crash` = the process stops right before the
 mutation takes effect (nothing after it runs). A crash "at the k-th mutation" is the oracle
 `ok^(k-1) ++ [crash]`; arbitrary failure sequences are arbitrary lists. The streaming copy is
 `begin` (open/truncate staging) + one attempt per chunk + `done` (EOF ⇒ rename).
 -/
 namespace Arc.C12
 
-inductive Outcome | ok | fail | crash
+/-- `srcfail` = the SOURCE side of the streaming copy fails (`src.ReadTo` returns an error after the
+chunks delivered so far): `copyFileStreaming` closes the pipe with that error
+(`pw.CloseWithError(err)`, shape checked by factgen: `copySrcErrPropagates`), so `WriteReader` fails,
+nothing is renamed and the whole copy step fails. At any other mutation it behaves like `fail`. -/
+inductive Outcome | ok | fail | crash | srcfail
 deriving DecidableEq, Repr
 
 /-- Persistent state of one file. -/
@@ -70,6 +75,7 @@ def atomic (x : Exec) (f : Exec → Exec) : Exec × R :=
   match pop x.orc with
   | (.ok, r) => (f { x with orc := r }, .ok)
   | (.fail, r) => ({ x with orc := r }, .failed)
+  | (.srcfail, r) => ({ x with orc := r }, .failed)
   | (.crash, r) => ({ x with orc := r }, .crashed)
 
 /-- chunk loop of the streaming copy: `k` chunks still to write, `w` written so far. -/
@@ -78,7 +84,8 @@ def copyChunks : Nat → Nat → Exec → Exec × R
   | k + 1, w, x =>
     match pop x.orc with
     | (.ok, r) => copyChunks k (w + 1) { x with orc := r, st := { x.st with part := some (w + 1) } }
-    | (.fail, r) => ({ x with orc := r }, .failed)
+    | (.fail, r) => ({ x with orc := r }, .failed)       -- destination write error: staging keeps `w` chunks
+    | (.srcfail, r) => ({ x with orc := r }, .failed)    -- source read error after `w` chunks: reaches the writer, same end state
     | (.crash, r) => ({ x with orc := r }, .crashed)
 
 /-- `copyFileStreaming` hot→cold of a file of `n` chunks (`LocalBackend.WriteReader` staging semantics). -/
